@@ -34,6 +34,12 @@ const findingSeenCommit = "C13-seen-commit-unverified"
 // one leaves maxPeerHeight at the large value for good: IsCaughtUp stays false and block sync never hands over.
 const findingMaxPeerHeight = "C13-maxpeerheight-stuck"
 
+// findingRedoAssignee: on a failed pair poolRoutine asks the pool who holds the two requests NOW
+// (RedoRequest(height) -> requester.getPeerID()) instead of who delivered the two blocks it peeked. If a sender has
+// been removed in between (it hung up; or this is the immediate retry on blocks whose requesters have not been reset
+// yet), the request already belongs to a peer that has sent nothing, and that peer is stopped for the error.
+const findingRedoAssignee = "C13-redo-blames-current-assignee"
+
 // refFullCommit is the independent reference for "this commit can be stored for canonical block h": it justifies
 // exactly that block (lib.RefCommitCheck: +2/3 of the canonical validator set of h, hand-encoded sign bytes, stdlib
 // ed25519) AND every slot it carries is a genuine precommit of the validator at that index, labelled with that
@@ -81,6 +87,7 @@ type verdict struct {
 	violations []string // outside any listed finding
 	seenCommit []string // violations carrying the signature of findingSeenCommit
 	maxStuck   []string // violations carrying the signature of findingMaxPeerHeight
+	bystander  []string // violations carrying the signature of findingRedoAssignee
 	infra      string
 	classes    []string
 	liesFirst  int // heights at which a lying response reached the node before any canonical one
@@ -256,7 +263,11 @@ func judge(n *node, out *outcome) *verdict {
 	v.liesFirst = len(firstAt)
 	// (3b) who is blamed for a failed pair
 	for _, m := range n.blameViolations() {
-		bad("%s", m)
+		if strings.HasPrefix(m, innocentMark) {
+			v.bystander = append(v.bystander, strings.TrimPrefix(m, innocentMark))
+		} else {
+			bad("%s", m)
+		}
 	}
 	if sc.Family == "push" {
 		// every block the node asked for was answered faithfully, so no verification can fail: whoever is stopped
@@ -400,7 +411,10 @@ type failer interface {
 }
 
 // syncOnce builds the chain and the node of a scenario, runs the sync and judges it.
-func syncOnce(t failer, test string, sc *scenario, strict bool) *verdict {
+// strictFor: the finding this call is the regression test of (never tolerated here, listed or not); "" for none,
+// "*" for every finding.
+func syncOnce(t failer, test string, sc *scenario, strictFor string) *verdict {
+	strict := func(id string) bool { return strictFor == id || strictFor == "*" }
 	chain, err := buildChain(sc)
 	if err != nil {
 		t.Fatalf("VERIF-INFRA: chain builder: %v", err)
@@ -458,6 +472,9 @@ func syncOnce(t failer, test string, sc *scenario, strict bool) *verdict {
 	if len(v.maxStuck) > 0 {
 		cls = append(cls, "finding:maxpeerheight-stuck")
 	}
+	if len(v.bystander) > 0 {
+		cls = append(cls, "finding:bystander-blamed")
+	}
 	lib.Case(test, lib.FP(describeScenario(sc)), v.liesFirst > 0, cls...)
 	if v.liesFirst > 0 && lib.WantSample(test) {
 		lib.Sample(test, map[string]interface{}{"scenario": sc, "deliveries": n.deliveries, "final_height": v.final, "tip": n.tip})
@@ -472,15 +489,23 @@ func syncOnce(t failer, test string, sc *scenario, strict bool) *verdict {
 		t.Fatalf("%s", report("C13 violated:", append(v.violations, v.seenCommit...)))
 	}
 	if len(v.seenCommit) > 0 {
-		if !strict && lib.IsKnown(findingSeenCommit) {
+		if !strict(findingSeenCommit) && lib.IsKnown(findingSeenCommit) {
 			lib.ObservedKnown(findingSeenCommit)
 			lib.ExcludedByKnown(findingSeenCommit)
 		} else {
 			t.Fatalf("%s", report("C13 violated ["+findingSeenCommit+"]:", v.seenCommit))
 		}
 	}
+	if len(v.bystander) > 0 {
+		if !strict(findingRedoAssignee) && lib.IsKnown(findingRedoAssignee) {
+			lib.ObservedKnown(findingRedoAssignee)
+			lib.ExcludedByKnown(findingRedoAssignee)
+		} else {
+			t.Fatalf("%s", report("C13 violated ["+findingRedoAssignee+"]:", v.bystander))
+		}
+	}
 	if len(v.maxStuck) > 0 {
-		if !strict && lib.IsKnown(findingMaxPeerHeight) {
+		if !strict(findingMaxPeerHeight) && lib.IsKnown(findingMaxPeerHeight) {
 			lib.ObservedKnown(findingMaxPeerHeight)
 			lib.ExcludedByKnown(findingMaxPeerHeight)
 		} else {
@@ -548,7 +573,7 @@ func TestSyncV0(t *testing.T) {
 			return
 		}
 		sc := genScenario(t, "v0", lib.Thorough())
-		syncOnce(t, "TestSyncV0", sc, false)
+		syncOnce(t, "TestSyncV0", sc, "")
 		noteGoroutines("TestSyncV0")
 	})
 	if m := infra(); m != "" {
@@ -586,7 +611,7 @@ func TestRegressPaddedSeenCommit(t *testing.T) {
 		"commit-nil-addr-member", "commit-nil-addr-unknown", "commit-nil-wrong-index", "commit-forblock-swapped"} {
 		kind := kind
 		t.Run(kind, func(t *testing.T) {
-			syncOnce(t, "TestRegressPaddedSeenCommit", regressScenario(kind), true)
+			syncOnce(t, "TestRegressPaddedSeenCommit", regressScenario(kind), findingSeenCommit)
 		})
 	}
 	if m := infra(); m != "" {
@@ -603,7 +628,7 @@ func TestRegressMaxPeerHeightStuck(t *testing.T) {
 	sc.Peers[0].Role, sc.Peers[0].Status = "honest", "true"
 	sc.Peers[1].Status, sc.Peers[1].StatusArg = "inflated", 3
 	sc.Peers[1].Status2, sc.Peers[1].Status2At = "true", 2
-	syncOnce(t, "TestRegressMaxPeerHeightStuck", sc, true)
+	syncOnce(t, "TestRegressMaxPeerHeightStuck", sc, findingMaxPeerHeight)
 	if m := infra(); m != "" {
 		t.Fatalf("VERIF-INFRA: %s", m)
 	}
@@ -642,7 +667,7 @@ func syncOther(t *testing.T, test, version string) {
 				}
 			}
 		}
-		syncOnce(t, test, sc, false)
+		syncOnce(t, test, sc, "")
 	})
 	if m := infra(); m != "" {
 		t.Fatalf("VERIF-INFRA: %s", m)
@@ -676,7 +701,7 @@ func TestUnsolicitedPush(t *testing.T) {
 	}{{"fork", false}, {"commit-padded-sig", false}, {"tx-tamper", true}} {
 		c := c
 		t.Run(fmt.Sprintf("%s/announces=%v", c.kind, c.announces), func(t *testing.T) {
-			v := syncOnce(t, "TestUnsolicitedPush", pushScenario(c.kind, c.announces), true)
+			v := syncOnce(t, "TestUnsolicitedPush", pushScenario(c.kind, c.announces), "")
 			if v.liesFirst == 0 {
 				t.Fatalf("VERIF-INFRA: no pushed block reached the node ahead of the honest answer")
 			}
@@ -701,7 +726,7 @@ func TestShortSyncHandover(t *testing.T) {
 					honest.Resp = append(honest.Resp, respSpec{Kind: "right"})
 				}
 				sc.Peers = []peerSpec{honest}
-				v := syncOnce(t, "TestShortSyncHandover", sc, true)
+				v := syncOnce(t, "TestShortSyncHandover", sc, "")
 				want := initial + int64(blocks) - 2 // block sync applies up to tip-1
 				if blocks == 1 {
 					want = 0
@@ -753,7 +778,7 @@ func TestNarrowRangeLiar(t *testing.T) {
 	for _, kind := range []string{"tx-tamper", "commit-forged", "commit-padded-sig"} {
 		kind := kind
 		t.Run(kind, func(t *testing.T) {
-			v := syncOnce(t, "TestNarrowRangeLiar", narrowScenario(kind, 4), true)
+			v := syncOnce(t, "TestNarrowRangeLiar", narrowScenario(kind, 4), "")
 			if v.liesFirst == 0 {
 				t.Fatalf("VERIF-INFRA: the lie did not reach the node first")
 			}
@@ -778,9 +803,30 @@ func TestServesThenSilent(t *testing.T) {
 			sc.Peers[1].Beyond = respSpec{Kind: beyond}
 			sc.Peers[0].JoinAt = 30 // the honest peer connects after the other one has served its three blocks
 			sc.Slow = true
-			syncOnce(t, "TestServesThenSilent", sc, true)
+			syncOnce(t, "TestServesThenSilent", sc, "")
 		})
 	}
+	if m := infra(); m != "" {
+		t.Fatalf("VERIF-INFRA: %s", m)
+	}
+}
+
+// TestRegressBystanderBlamed fails on the defect (findingRedoAssignee). A peer serves block 1 with a bulky extra
+// transaction (a wrong block whose verification takes a good while) and block 2, and hangs up a few ticks later, while
+// the node is still verifying; the honest peer, connected by then but on a slow link, has been handed the orphaned
+// requests and has not delivered anything yet. The node must not stop the honest peer for the liar's block.
+func TestRegressBystanderBlamed(t *testing.T) {
+	sc := regressScenario("right")
+	sc.Peers[0].Role, sc.Peers[0].Status, sc.Peers[0].StatusArg = "honest", "true", 0
+	sc.Peers[0].JoinAt = 3
+	for i := range sc.Peers[0].Resp {
+		sc.Peers[0].Resp[i].Delay = 400 // slow link
+	}
+	sc.Peers[1].Resp[0] = respSpec{Kind: "tx-tamper-bulky", Arg: 4} // 8 MB
+	sc.Peers[1].LeaveAfter = 12
+	// the liar answers block 1 last, so that the pair (1,2) is complete the moment the bulky block arrives
+	sc.Peers[1].Resp[0].Delay = 6
+	syncOnce(t, "TestRegressBystanderBlamed", sc, findingRedoAssignee)
 	if m := infra(); m != "" {
 		t.Fatalf("VERIF-INFRA: %s", m)
 	}
